@@ -95,6 +95,28 @@ let res_str (r : res) : string =
   | RCounts (((a, b), c), d) -> Printf.sprintf "c %d %d %d %d" (i a) (i b) (i c) (i d)
   | RLabels l -> "l:" ^ slice_str l
   | RTyped l -> "t:" ^ (if l = [] then "-" else String.concat "," (List.map typed_str l))
+  | ROptTyped None -> "o:none"
+  | ROptTyped (Some l) -> "o:" ^ (if l = [] then "-" else String.concat "," (List.map (fun (_, c) -> match c with IOk _ -> "ok" | IErr _ -> "e") l))
+
+let dtok_str (t : dtok) : string =
+  match t with
+  | TOpt l -> "O" ^ (if List.mem false l then "0" else "")
+  | TQHdr -> "QH" | TQ -> "q"
+  | TSecHdr k -> "S" ^ si k
+  | TRec b -> "r" ^ b01 b
+  | TInvalid -> "!"
+
+let res3_str (r : res3) : string =
+  match r with
+  | R2 r -> res_str r
+  | RCount (a, b) -> Printf.sprintf "n %d %d" (i a) (i b)
+  | RCopy (IOk ((a, b), c)) -> Printf.sprintf "k:%d/%d/%d" (i a) (i b) (i c)
+  | RCopy (IErr e) -> "k:E" ^ si e
+  | RLast (Some t) -> "g:" ^ si t
+  | RLast None -> "g:none"
+  | RDig l ->
+      let l = List.filter (fun t -> t <> TRec true) l in
+      "p:" ^ (if l = [] then "-" else String.concat " " (List.map dtok_str l))
 
 let op_of_string (s : string) : op =
   let arg () = if String.length s > 1 then int_of_string (String.sub s 1 (String.length s - 1)) else 0 in
@@ -103,8 +125,17 @@ let op_of_string (s : string) : op =
   | 'n' -> OQNext (nat_of_int (arg ())) | 'a' -> OQAnswer (nat_of_int (arg ()))
   | 'r' -> ORNext (nat_of_int (arg ())) | 's' -> ORNextSection (nat_of_int (arg ()))
   | 'f' -> OFirst | 'o' -> OSole | 'e' -> OSelf | 'c' -> OCanonical | 'S' -> OSections
-  | 'C' -> OCounts | 'l' -> OSlice (n_of_int (arg ())) | 't' -> OTyped
+  | 'C' -> OCounts | 'l' -> OSlice (n_of_int (arg ())) | 't' -> OTyped | 'O' -> OOptTyped
   | _ -> failwith "bad op"
+
+let op3_of_string (s : string) : op3 =
+  match s.[0] with
+  | 'L' ->
+      (match String.split_on_char '_' (String.sub s 1 (String.length s - 1)) with
+       | [a; b] -> OLimit (nat_of_int (int_of_string a), n_of_int (int_of_string b))
+       | _ -> failwith "bad L op")
+  | 'K' -> OCopy | 'G' -> OLast | 'P' -> ODig
+  | _ -> O2 (op_of_string s)
 
 let handle = function
   | ["pname"; lim; pos; m] ->
@@ -125,9 +156,9 @@ let handle = function
   | ["pops"; lim; pos; m] ->
       show_outcome pops_str (c01_pops (bytes_of_hex m) (n_of_int (int_of_string pos)) (n_of_int (int_of_string lim)))
   | ["ops"; m; ops] ->
-      (match read_ops (bytes_of_hex m) (List.map op_of_string (String.split_on_char ',' ops)) with
+      (match read_ops3 (bytes_of_hex m) (List.map op3_of_string (String.split_on_char ',' ops)) with
        | Ok None -> "short"
-       | Ok (Some l) -> String.concat " ; " (List.map res_str l)
+       | Ok (Some l) -> String.concat " ; " (List.map res3_str l)
        | Err e -> "Err " ^ si e
        | Panic _ -> "Panic"
        | OutOfFuel -> "OutOfFuel")
